@@ -19,7 +19,8 @@ type config struct {
 	fallback, recovery, checkPeriod time.Duration
 	cond                            string
 	badCode                         int
-	order                           int // index into optionOrders: the order in which the three duration options are passed to New
+	order                           int  // index into optionOrders: the order in which the three duration options are passed to New
+	edge                            bool // sub-millisecond timing around the end of the fallback period (own small alphabet)
 }
 
 // optionOrders: every permutation of (FallbackDuration, RecoveryDuration, CheckPeriod).
@@ -58,6 +59,9 @@ func newSys(cfg config) *sys {
 		if s.latency > 0 {
 			clock.Advance(s.latency)
 		}
+		if s.code == abortCode {
+			panic(http.ErrAbortHandler) // how a reverse proxy aborts a broken exchange
+		}
 		w.WriteHeader(s.code)
 	})
 	three := []cbreaker.Option{cbreaker.FallbackDuration(cfg.fallback), cbreaker.RecoveryDuration(cfg.recovery), cbreaker.CheckPeriod(cfg.checkPeriod)}
@@ -87,6 +91,9 @@ func (s *sys) state() string {
 
 type verdict struct{ key, detail string }
 
+// abortCode: the protected handler aborts the exchange by panicking instead of answering.
+const abortCode = -1
+
 var legalEdges = map[string]bool{
 	"standby>standby": true, "standby>tripped": true,
 	"tripped>tripped": true, "tripped>recovering": true,
@@ -101,8 +108,18 @@ func (s *sys) request(code int, latency time.Duration) (string, []verdict) {
 	before := s.state()
 	inv := s.invoked
 	rec := httptest.NewRecorder()
-	s.cb.ServeHTTP(rec, httptest.NewRequest("GET", "http://x/", nil))
+	func() {
+		defer func() {
+			if p := recover(); p != nil && p != http.ErrAbortHandler {
+				panic(p)
+			}
+		}()
+		s.cb.ServeHTTP(rec, httptest.NewRequest("GET", "http://x/", nil))
+	}()
 	served := s.invoked > inv
+	if code == abortCode && served {
+		rec.Code = http.StatusServiceUnavailable // nothing was answered; irrelevant for a request that was passed
+	}
 	after := s.state()
 	now := clock.Now().UTC()
 	obs := fmt.Sprintf("%s>%s served=%v code=%d", before, after, served, rec.Code)
@@ -207,8 +224,21 @@ func alphabet(cfg config, prop, tier string) ([]string, []opDesc) {
 		names = append(names, fmt.Sprintf("Req(%d,%v)", code, lat))
 		descs = append(descs, opDesc{0, code, lat, 0})
 	}
+	if cfg.edge {
+		// requests in the last fraction of a millisecond of the fallback period, recovery periods of microseconds
+		addReq(200, 0)
+		addReq(cfg.badCode, 0)
+		for _, d := range dedupe([]time.Duration{cfg.fallback - 500*time.Microsecond, 100 * time.Microsecond, 300 * time.Microsecond, cfg.fallback, cfg.checkPeriod}) {
+			names = append(names, fmt.Sprintf("Advance(%v)", d))
+			descs = append(descs, opDesc{1, 0, 0, d})
+		}
+		return names, descs
+	}
 	addReq(200, 0)
 	addReq(cfg.badCode, 0)
+	if prop == "C12" {
+		addReq(abortCode, 0) // an admitted exchange that is aborted still was admitted
+	}
 	if prop != "C12" {
 		// a slow failing response: the trip happens when it COMPLETES, half a fallback period after it arrived
 		addReq(cfg.badCode, cfg.fallback/2)
@@ -290,7 +320,7 @@ func model(cfg config, prop, tier string, depth int) *lib.Model[*sys] {
 				continue
 			}
 			rep.Violate(p[0], p[1]+" ["+cfg.String()+"]", map[string]any{"engine": "xstate", "part": "cb", "fallback_ns": int64(cfg.fallback), "recovery_ns": int64(cfg.recovery),
-				"check_ns": int64(cfg.checkPeriod), "option_order": cfg.order, "cond": cfg.cond, "bad_code": cfg.badCode, "tier": tier, "ops": m.OpNames(hist), "observations": obs})
+				"check_ns": int64(cfg.checkPeriod), "option_order": cfg.order, "edge": cfg.edge, "cond": cfg.cond, "bad_code": cfg.badCode, "tier": tier, "ops": m.OpNames(hist), "observations": obs})
 		}
 	}
 	return m
@@ -324,7 +354,7 @@ func configs(prop, tier string) []config {
 					if tier != "thorough" && (i+j+k+l)%2 == 1 {
 						continue // quick: half of the product, every value of every parameter still occurs
 					}
-					out = append(out, config{f, r, c, cd.c, cd.code, 0})
+					out = append(out, config{f, r, c, cd.c, cd.code, 0, false})
 				}
 			}
 		}
@@ -356,7 +386,7 @@ func Run(tier string, sh lib.Shard, rep *lib.Report) {
 	if prop == "C12" {
 		rep.Require("requests_passed_during_recovery", "requests_refused_during_recovery", "returns_to_standby", "re_trips_from_recovery")
 	} else {
-		rep.Require("trips_observed", "requests_shielded_while_tripped", "requests_passed_during_recovery", "returns_to_standby", "prepared_states_retripped_mid_recovery")
+		rep.Require("trips_observed", "requests_shielded_while_tripped", "requests_passed_during_recovery", "returns_to_standby", "prepared_states_retripped_mid_recovery", "sub_millisecond_searches")
 	}
 	// The order in which options are passed can only matter through the breaker that New builds: all six orders
 	// are built, and one representative per DISTINCT built breaker (reflective dump) is explored - a reduction
@@ -435,15 +465,32 @@ func Run(tier string, sh lib.Shard, rep *lib.Report) {
 			}
 		}
 	}
+	if prop == "C05" {
+		// durations are quantified over ALL values: sub-millisecond recovery / fallback periods and requests that
+		// arrive within the last millisecond of the shield
+		ms, us := time.Millisecond, time.Microsecond
+		for _, cfg := range []config{
+			{fallback: 2 * time.Second, recovery: 200 * us, checkPeriod: 100 * ms, cond: "NetworkErrorRatio() > 0.5", badCode: 502, edge: true},
+			{fallback: 900 * us, recovery: 100 * us, checkPeriod: 100 * ms, cond: "NetworkErrorRatio() > 0.5", badCode: 502, edge: true},
+			{fallback: 1500 * us, recovery: 2 * ms, checkPeriod: ms, cond: "ResponseCodeRatio(500, 600, 0, 600) > 0.5", badCode: 500, edge: true},
+		} {
+			m := model(cfg, prop, tier, depth)
+			m.Name += "/sub-millisecond"
+			m.Shard, m.ShardLevel = sh, 2
+			m.Run(rep)
+			rep.Count("sub_millisecond_searches")
+		}
+	}
 	rep.Nontrivial = rep.Counters["requests_shielded_while_tripped"] + rep.Counters["requests_passed_during_recovery"] + rep.Counters["requests_refused_during_recovery"]
 }
 
 func Replay(rp map[string]any) (bool, string) {
 	cfg := config{time.Duration(int64(rp["fallback_ns"].(float64))), time.Duration(int64(rp["recovery_ns"].(float64))), time.Duration(int64(rp["check_ns"].(float64))),
-		rp["cond"].(string), int(rp["bad_code"].(float64)), 0}
+		rp["cond"].(string), int(rp["bad_code"].(float64)), 0, false}
 	if o, ok := rp["option_order"].(float64); ok {
 		cfg.order = int(o)
 	}
+	cfg.edge = rp["edge"] == true
 	prop, _ := rp["property"].(string)
 	tier, _ := rp["tier"].(string)
 	m := model(cfg, prop, tier, 0)
